@@ -104,7 +104,7 @@ func genScan(w *out.W, tier string) {
 		sets []optSet
 	}{
 		{tokBegin, nt, mp}, {tokBegin, nt - 1, all}, {tokDelim, nt, gm}, {tokDelim, nt - 1, drv}, {tokHdr, nt, gp}, {tokHdr, nt - 1, drv},
-		{tokCmt, nt, gm}, {tokCmt, nt - 1, drv}, {tokMisc, nt - 1, all}, {tokGo, nt - 1, extra},
+		{tokCmt, nt, gm}, {tokCmt, nt - 1, drv}, {tokMisc, nt - 1, all}, {tokGo, nt - 1, extra}, {tokGo, nt, []optSet{byName["x-try"]}},
 	} {
 		words(fam.toks, fam.n, func(s string) {
 			for _, o := range fam.sets {
